@@ -11,9 +11,49 @@ is kept, preservation composes over re-injection).
 -/
 namespace IstioModel.C19
 
+theorem keepsReservedB_iff (before after : RPod) :
+    keepsReservedB before after = true ↔ ∀ n ∈ before.ctrNames, n ∈ reservedNames → n ∈ after.ctrNames := by
+  simp only [keepsReservedB, List.all_eq_true, Bool.or_eq_true, Bool.not_eq_true', List.contains_iff_mem]
+  constructor
+  · intro h n hn hr
+    rcases h n hn with h | h
+    · have : reservedNames.contains n = true := List.contains_iff_mem.mpr hr
+      rw [this] at h; cases h
+    · exact h
+  · intro h n hn
+    by_cases hr : n ∈ reservedNames
+    · exact Or.inr (h n hn hr)
+    · left
+      cases hc : reservedNames.contains n
+      · rfl
+      · exact absurd (List.contains_iff_mem.mp hc) hr
+
 /-- Soundness and completeness of the preservation checker. -/
 theorem preservesB_iff (before after : RPod) : preservesB before after = true ↔ Preserves before after := by
-  simp [preservesB, Preserves, keepsContainersB, keepsInitsB, keepsVolumesB, List.isSublist_iff_sublist, and_assoc]
+  simp only [preservesB, Preserves, Bool.and_eq_true, keepsReservedB_iff]
+  simp [keepsContainersB, keepsInitsB, keepsVolumesB, List.isSublist_iff_sublist, and_assoc]
+
+/-- Soundness and completeness of the status-record checker. -/
+theorem statusTruthfulB_iff (orig after : RPod) : statusTruthfulB orig after = true ↔ StatusTruthful orig after := by
+  simp only [statusTruthfulB, StatusTruthful, Bool.and_eq_true, List.all_eq_true, Bool.or_eq_true, List.contains_iff_mem,
+    and_assoc]
+  constructor
+  · rintro ⟨h1, h2, h3, h4⟩
+    refine ⟨h1, h2, fun n hn ho => ?_, fun n hn ho => ?_⟩
+    · rcases h3 n hn with h | h
+      · exact absurd h ho
+      · exact h
+    · rcases h4 n hn with h | h
+      · exact absurd h ho
+      · exact h
+  · rintro ⟨h1, h2, h3, h4⟩
+    refine ⟨h1, h2, fun n hn => ?_, fun n hn => ?_⟩
+    · by_cases ho : n ∈ orig.ctrNames
+      · exact Or.inl ho
+      · exact Or.inr (h3 n hn ho)
+    · by_cases ho : n ∈ orig.volNames
+      · exact Or.inl ho
+      · exact Or.inr (h4 n hn ho)
 
 /-- Soundness and completeness of the idempotence checker. -/
 theorem idempotentB_iff (once twice : RPod) : idempotentB once twice = true ↔ Idempotent once twice := by
@@ -58,7 +98,7 @@ theorem preserves_volume_kept (before after : RPod) (h : Preserves before after)
   have hmem : v ∈ userVols after.injV before.volumes := by
     simp only [userVols, List.mem_filter]
     exact ⟨hv, by simpa using hu⟩
-  exact h.2.2.subset hmem
+  exact h.2.2.1.subset hmem
 
 /-- Relative order: if user container `x` comes before user container `y` in the pod (as the
     two-element sub-list `[x, y]`), it still does in the result. -/
@@ -72,7 +112,7 @@ theorem preserves_order (before after : RPod) (h : Preserves before after) (x y 
     the twice-injected pod preserves the user's original pod. -/
 theorem preserves_trans (orig once twice : RPod) (h1 : Preserves orig once) (h2 : Preserves once twice)
     (hv : once.injV = twice.injV) : Preserves orig twice := by
-  refine ⟨?_, ?_, ?_⟩
+  refine ⟨?_, ?_, ?_, ?_⟩
   · exact (sublist_userCtrs (userCtrs_unowned reservedNames orig.containers) h1.1).trans h2.1
   · exact (sublist_userCtrs (userCtrs_unowned reservedNames orig.inits) h1.2.1).trans h2.2.1
   · rw [← hv]
@@ -80,20 +120,32 @@ theorem preserves_trans (orig once twice : RPod) (h1 : Preserves orig once) (h2 
       intro v hv'
       simp only [userVols, List.mem_filter] at hv'
       simpa using hv'.2
-    have a := sublist_userVols hu h1.2.2
-    have b := h2.2.2; rw [← hv] at b
+    have a := sublist_userVols hu h1.2.2.1
+    have b := h2.2.2.1; rw [← hv] at b
     exact a.trans b
+  · intro n hn hr
+    exact h2.2.2.2 n (h1.2.2.2 n hn hr) hr
+
+/-- A container of a reserved name the user wrote (e.g. `enable-core-dump` under a template that does not inject
+    one) is still in the result. -/
+theorem preserves_reserved_kept (before after : RPod) (h : Preserves before after) (n : String)
+    (hn : n ∈ before.ctrNames) (hr : n ∈ reservedNames) : n ∈ after.ctrNames := h.2.2.2 n hn hr
+
+/-- With a truthful status record the volume clause is not vacuous: a volume the record exempts is really in the
+    result. -/
+theorem exempt_volume_present (orig after : RPod) (hs : StatusTruthful orig after) (n : String) (h : n ∈ after.injV) :
+    n ∈ after.volNames := hs.2.1 n h
 
 /-- An idempotent re-injection trivially preserves whatever the first injection preserved. -/
 theorem idempotent_preserves (orig once twice : RPod) (h1 : Preserves orig once) (hi : Idempotent once twice) :
     Preserves orig twice := by
   unfold Idempotent at hi; subst hi; exact h1
 
-/-- The monitors part is `okInjected` exactly when the observation is complete and the three statements hold. -/
+/-- The monitors part is `okInjected` exactly when the observation is complete and the statements hold. -/
 theorem judgeMonitors_ok_iff (o : Obs) :
     judgeMonitors o = .okInjected ↔
       ∃ a b c, o.orig = some a ∧ o.once = some b ∧ o.twice = some c ∧
-        Preserves a b ∧ Preserves a c ∧ Idempotent b c := by
+        Preserves a b ∧ Preserves a c ∧ (a.fresh = true → StatusTruthful a b) ∧ Idempotent b c := by
   unfold judgeMonitors
   constructor
   · intro h
@@ -102,134 +154,153 @@ theorem judgeMonitors_ok_iff (o : Obs) :
       refine ⟨a, b, c, ha, hb, hc, ?_⟩
       repeat' split at h
       all_goals try (simp at h; done)
-      rename_i k1 k2 k3 k4 k5 k6 k7
-      simp only [Bool.not_eq_eq_eq_not, Bool.not_true] at k1 k2 k3 k4 k5 k6 k7
-      refine ⟨(preservesB_iff a b).mp ?_, (preservesB_iff a c).mp ?_, (idempotentB_iff b c).mp ?_⟩
+      rename_i k1 k2 k3 k4 k5 k6 k7 k8 k9 k10
+      simp only [Bool.not_eq_eq_eq_not, Bool.not_true, Bool.and_eq_true, not_and, Bool.not_eq_false] at k1 k2 k3 k4 k5 k6 k7 k8 k9 k10
+      refine ⟨(preservesB_iff a b).mp ?_, (preservesB_iff a c).mp ?_, ?_, (idempotentB_iff b c).mp ?_⟩
       · simp_all [preservesB]
       · simp_all [preservesB]
+      · intro hf; exact (statusTruthfulB_iff a b).mp (by simpa using k9 hf)
       · simp_all
     · simp at h
-  · rintro ⟨a, b, c, ha, hb, hc, h1, h2, h3⟩
+  · rintro ⟨a, b, c, ha, hb, hc, h1, h2, h3, h4⟩
     have p1 := (preservesB_iff a b).mpr h1
     have p2 := (preservesB_iff a c).mpr h2
-    have p3 := (idempotentB_iff b c).mpr h3
+    have p4 := (idempotentB_iff b c).mpr h4
     simp only [preservesB, Bool.and_eq_true] at p1 p2
-    simp [ha, hb, hc, p1.1.1, p1.1.2, p1.2, p2.1.1, p2.1.2, p2.2, p3]
+    have p3 : (a.fresh && !statusTruthfulB a b) = false := by
+      cases hf : a.fresh
+      · simp
+      · simp [(statusTruthfulB_iff a b).mpr (h3 hf)]
+    simp [ha, hb, hc, p1.1.1.1, p1.1.1.2, p1.1.2, p1.2, p2.1.1.1, p2.1.1.2, p2.1.2, p2.2, p3, p4]
 
-/-- `OK injected` is printed only if the admission outcome agrees with the documented decision (not "skip"), no
-    refusal was due, and all three monitors accept. -/
+/-- `OK injected` is printed only if the documented decision is known and is "inject", no refusal was due, and all
+    monitors accept. -/
 theorem judge_injected_sound (o : Obs) (h : judge o = .okInjected) :
-    o.status = "injected" ∧ o.expect ≠ some false ∧ o.refusal ≠ "must" ∧
+    o.status = "injected" ∧ o.expect = some true ∧ o.refusal ≠ "must" ∧
     ∃ a b c, o.orig = some a ∧ o.once = some b ∧ o.twice = some c ∧
-      Preserves a b ∧ Preserves a c ∧ Idempotent b c := by
+      Preserves a b ∧ Preserves a c ∧ (a.fresh = true → StatusTruthful a b) ∧ Idempotent b c := by
   unfold judge at h
   split at h
   all_goals try (simp at h; done)
   · split at h
-    · simp at h
-    · split at h <;> simp at h
+    all_goals try (simp at h; done)
+    split at h <;> simp at h
   · split at h
+    all_goals try (simp at h; done)
+    unfold judgeSkipped at h
+    split at h
+    · split at h <;> simp at h
     · simp at h
-    · unfold judgeSkipped at h
-      split at h
-      · split at h <;> simp at h
-      · simp at h
   · rename_i hs
     split at h
+    all_goals try (simp at h; done)
+    rename_i he
+    split at h
     · simp at h
-    · rename_i he
-      split at h
-      · simp at h
-      · rename_i hr
-        exact ⟨hs, he, hr, (judgeMonitors_ok_iff o).mp h⟩
+    · rename_i hr
+      exact ⟨hs, he, hr, (judgeMonitors_ok_iff o).mp h⟩
 
 /-- ... and conversely (the monitor raises no false alarm). -/
 theorem judge_injected_complete (o : Obs) (a b c : RPod) (hs : o.status = "injected")
-    (he : o.expect ≠ some false) (hr : o.refusal ≠ "must")
+    (he : o.expect = some true) (hr : o.refusal ≠ "must")
     (ha : o.orig = some a) (hb : o.once = some b) (hc : o.twice = some c)
-    (h1 : Preserves a b) (h2 : Preserves a c) (h3 : Idempotent b c) : judge o = .okInjected := by
-  have hm := (judgeMonitors_ok_iff o).mpr ⟨a, b, c, ha, hb, hc, h1, h2, h3⟩
+    (h1 : Preserves a b) (h2 : Preserves a c) (h3 : a.fresh = true → StatusTruthful a b) (h4 : Idempotent b c) :
+    judge o = .okInjected := by
+  have hm := (judgeMonitors_ok_iff o).mpr ⟨a, b, c, ha, hb, hc, h1, h2, h3, h4⟩
   unfold judge
   simp [hs, he, hr, hm]
 
-/-- `OK skipped` is printed only if the documented decision is not "inject" and the pod came back unchanged. -/
+/-- `OK skipped` is printed only if the documented decision is known and is "do not inject", and the pod came back
+    unchanged. -/
 theorem judge_skipped_sound (o : Obs) (h : judge o = .okSkipped) :
-    o.status = "skipped" ∧ o.expect ≠ some true ∧ ∃ a b, o.orig = some a ∧ o.once = some b ∧ Idempotent a b := by
+    o.status = "skipped" ∧ o.expect = some false ∧ ∃ a b, o.orig = some a ∧ o.once = some b ∧ Idempotent a b := by
   unfold judge at h
   split at h
   all_goals try (simp at h; done)
   · split at h
-    · simp at h
-    · split at h <;> simp at h
+    all_goals try (simp at h; done)
+    split at h <;> simp at h
   · rename_i hs
     split at h
-    · simp at h
-    · rename_i he
-      refine ⟨hs, he, ?_⟩
-      unfold judgeSkipped at h
+    all_goals try (simp at h; done)
+    rename_i he
+    refine ⟨hs, he, ?_⟩
+    unfold judgeSkipped at h
+    split at h
+    · rename_i a b ha hb
       split at h
-      · rename_i a b ha hb
-        split at h
-        · rename_i hi
-          exact ⟨a, b, ha, hb, (idempotentB_iff a b).mp hi⟩
-        · simp at h
+      · rename_i hi
+        exact ⟨a, b, ha, hb, (idempotentB_iff a b).mp hi⟩
       · simp at h
-  · split at h
     · simp at h
-    · split at h
+  · split at h
+    all_goals try (simp at h; done)
+    split at h
+    · simp at h
+    · unfold judgeMonitors at h
+      split at h
+      · repeat' split at h
+        all_goals simp at h
       · simp at h
-      · unfold judgeMonitors at h
-        split at h
-        · repeat' split at h
-          all_goals simp at h
-        · simp at h
 
-/-- `OK rejected` is printed only if the documented decision is not "skip" and a refusal was due or allowed. -/
+/-- `OK rejected` is printed only if the documented decision is known and is "inject", and a refusal was due or allowed. -/
 theorem judge_rejected_sound (o : Obs) (h : judge o = .okRejected) :
-    o.status = "error" ∧ o.expect ≠ some false ∧ o.refusal ≠ "no" := by
+    o.status = "error" ∧ o.expect = some true ∧ o.refusal ≠ "no" := by
   unfold judge at h
   split at h
   all_goals try (simp at h; done)
   · rename_i hs
     split at h
+    all_goals try (simp at h; done)
+    rename_i he
+    split at h
     · simp at h
-    · rename_i he
-      split at h
-      · simp at h
-      · rename_i hr
-        exact ⟨hs, he, hr⟩
+    · rename_i hr
+      exact ⟨hs, he, hr⟩
   · split at h
+    all_goals try (simp at h; done)
+    unfold judgeSkipped at h
+    split at h
+    · split at h <;> simp at h
     · simp at h
-    · unfold judgeSkipped at h
-      split at h
-      · split at h <;> simp at h
-      · simp at h
   · split at h
+    all_goals try (simp at h; done)
+    split at h
     · simp at h
-    · split at h
+    · unfold judgeMonitors at h
+      split at h
+      · repeat' split at h
+        all_goals simp at h
       · simp at h
-      · unfold judgeMonitors at h
-        split at h
-        · repeat' split at h
-          all_goals simp at h
-        · simp at h
 
-/-- The webhook-level decision is judged: an injected pod whose documented decision is "skip", and a skipped pod
-    whose documented decision is "inject", are rejected whatever else was observed. -/
+/-- The webhook-level decision is judged: an injected pod whose documented decision is "skip", a skipped pod whose
+    documented decision is "inject", and any admission whose decision inputs are missing are rejected whatever else
+    was observed. -/
 theorem judge_decision_checked (o : Obs) :
     (o.status = "injected" → o.expect = some false → judge o = .fail "decision-injected-but-documented-skip") ∧
-    (o.status = "skipped" → o.expect = some true → judge o = .fail "decision-skipped-but-documented-inject") := by
-  constructor
+    (o.status = "skipped" → o.expect = some true → judge o = .fail "decision-skipped-but-documented-inject") ∧
+    (o.status = "injected" ∨ o.status = "skipped" ∨ o.status = "error" → o.expect = none →
+      judge o = .fail "no-decision-inputs") := by
+  refine ⟨?_, ?_, ?_⟩
   · intro hs he; unfold judge; simp [hs, he]
   · intro hs he; unfold judge; simp [hs, he]
+  · intro hs he
+    unfold judge
+    rcases hs with hs | hs | hs <;> simp [hs, he]
+
+/-- A case of the check that did not load is never a pass. -/
+theorem judge_unloadable_fails (o : Obs) (h : o.status = "unloadable") : judge o = .fail "unloadable" := by
+  unfold judge; simp [h]
 
 /-! Non-vacuity: a concrete observation the monitors accept, and ones they reject. -/
+
 
 def exApp : CtrObs := { core := { name := "app", image := "nginx", command := ["/app"], args := [], ports := ["http/80/TCP/0/"] }, digest := "d1" }
 def exApp2 : CtrObs := { core := { name := "worker", image := "busybox", command := [], args := ["x"], ports := [] }, digest := "d2" }
 def exProxy : CtrObs := { core := { name := "istio-proxy", image := "proxyv2", command := [], args := ["proxy"], ports := [] }, digest := "d3" }
 def exOrig : RPod := { containers := [exApp, exApp2], volumes := [⟨"data", "v1"⟩] }
-def exOnce : RPod := { containers := [exApp, exApp2, exProxy], volumes := [⟨"istio-envoy", "v2"⟩, ⟨"data", "v1"⟩],
+def exInit : CtrObs := { core := { name := "istio-init", image := "proxyv2", command := [], args := ["istio-iptables"], ports := [] }, digest := "d4" }
+def exOnce : RPod := { containers := [exApp, exApp2, exProxy], inits := [exInit], volumes := [⟨"istio-envoy", "v2"⟩, ⟨"data", "v1"⟩],
                        injC := ["istio-proxy"], injI := ["istio-init"], injV := ["istio-envoy"] }
 
 example : Preserves exOrig exOnce := (preservesB_iff _ _).mp (by decide +kernel)
@@ -253,10 +324,25 @@ example : judge { status := "injected", expect := some false, orig := some exOri
     pod after the first injection and gone after the second - the digest of the sidecar container
     differs, everything else is equal - and the monitor rejects the observation. -/
 theorem override_reinjection_witness_unfixed :
-    judge { status := "injected", orig := some exOrig,
+    judge { status := "injected", expect := some true, orig := some exOrig,
             once := some { exOnce with containers := [exApp, exApp2, { exProxy with digest := "limits-cpu-3" }] },
             twice := some { exOnce with containers := [exApp, exApp2, { exProxy with digest := "limits-cpu-2" }] } }
       = .fail "idempotent containers" := by
   decide +kernel
 
+end IstioModel.C19
+
+namespace IstioModel.C19
+/-- the record is judged: a status annotation that lists a volume which is not in the pod is rejected -/
+example : ¬ StatusTruthful exOrig { exOnce with injV := ["istio-envoy", "ghost"] } :=
+  fun h => absurd ((statusTruthfulB_iff _ _).mpr h) (by decide +kernel)
+example : StatusTruthful exOrig exOnce := (statusTruthfulB_iff _ _).mp (by decide +kernel)
+/-- an added container that the record does not list is rejected -/
+example : ¬ StatusTruthful exOrig { exOnce with injI := [] } :=
+  fun h => absurd ((statusTruthfulB_iff _ _).mpr h) (by decide +kernel)
+/-- a user container of a reserved name must not vanish -/
+example : ¬ Preserves { exOrig with containers := exOrig.containers ++ [{ exApp with core := { exApp.core with name := "enable-core-dump" } }] } exOnce :=
+  fun h => absurd ((preservesB_iff _ _).mpr h) (by decide +kernel)
+example : judge { status := "injected", expect := none, orig := some exOrig, once := some exOnce, twice := some exOnce }
+    = .fail "no-decision-inputs" := by decide +kernel
 end IstioModel.C19
